@@ -89,6 +89,28 @@ type FixUintKeys struct {
 	A       string `codec:"7"`
 	B       []int  `codec:"8"`
 }
+
+// key tags on and above the int64 boundary, negative int keys, float keys
+type FixUintBig struct {
+	_struct bool   `codec:",uint"`
+	A       string `codec:"9223372036854775807"`
+	B       int    `codec:"9223372036854775808"`
+	C       bool   `codec:"18446744073709551615"`
+	D       []int  `codec:"0,omitempty"`
+}
+type FixIntNeg struct {
+	_struct bool   `codec:",int"`
+	A       string `codec:"-1"`
+	B       int    `codec:"-9223372036854775808"`
+	C       bool   `codec:"9223372036854775807"`
+	D       []int  `codec:"0,omitempty"`
+}
+type FixFloatKeys struct {
+	_struct bool   `codec:",float"`
+	A       string `codec:"1.5"`
+	B       int    `codec:"-2"`
+	C       bool   `codec:"1000"`
+}
 type FixOmit struct {
 	S  []int             `codec:"s,omitempty"`
 	M  map[string]int    `codec:"m,omitempty"`
@@ -207,6 +229,11 @@ var fixedTypes = []reflect.Type{
 	reflect.TypeOf(FixBig{}), reflect.TypeOf(FixBigArr{}), reflect.TypeOf(FixBigAll{}), reflect.TypeOf(BigS{}),
 	reflect.TypeOf(FixPtrShaped{}), reflect.TypeOf(FixMapShaped{}), reflect.TypeOf(FixShapedOuter{}), reflect.TypeOf(FixShapedIn{}),
 	reflect.TypeOf(FixPtrZero{}), reflect.TypeOf(FixPtrZeroAll{}),
+	reflect.TypeOf(FixUintBig{}), reflect.TypeOf(FixIntNeg{}), reflect.TypeOf(FixFloatKeys{}),
+}
+
+var keyedTypes = []reflect.Type{
+	reflect.TypeOf(FixIntKeys{}), reflect.TypeOf(FixUintKeys{}), reflect.TypeOf(FixUintBig{}), reflect.TypeOf(FixIntNeg{}), reflect.TypeOf(FixFloatKeys{}),
 }
 
 var shapedTypes = []reflect.Type{
